@@ -205,7 +205,9 @@ func u32p(v uint32) *uint32 { return &v }
 func u64p(v uint64) *uint64 { return &v }
 
 var goodNames = []string{"a", "b", "c", "d", "ee"}
-var oddNames = []string{"", ".", "..", "a/b", "a\\b", "x..y", "..x", "\x00", "a\x00b", strings.Repeat("n", 255), strings.Repeat("n", 256)}
+var oddNames = []string{"", ".", "..", "a/b", "a\\b", "x..y", "..x", "\x00", "a\x00b", strings.Repeat("n", 255), strings.Repeat("n", 256),
+	// multi-byte names around the 255-BYTE limit: 256 and 258 bytes in 128 / 86 runes (refused), exactly 255 bytes (accepted)
+	strings.Repeat("é", 128), strings.Repeat("日", 86), strings.Repeat("x", 253) + "é", strings.Repeat("é", 127) + "x", "名前"}
 
 func (s *Session) pickHandle(r *Rand) uint64 {
 	if len(s.Handles) == 0 || r.Chance(4) {
